@@ -131,6 +131,38 @@ def field? (pre : String) (s : String) : Option String :=
 
 def okName (n : Bytes) : Bool := n.all fun c => (65 ≤ c && c ≤ 90) || (48 ≤ c && c ≤ 57) || c == 95
 
+/-- Monitor for `parse`, stated on the implementation's entries without the model's parser:
+nothing of the specification may be lost.  Re-rendering the entries (`event`, or `event:name`
+for a non-empty name) and joining them with commas gives back the filter text before the first
+`=` (`*` for none); an entry may differ from its item only by an empty name after `user:` /
+`query:`.  Every entry carries the text after the first `=` (the whole text without `=`) as script. -/
+def parseMonitor (v : Bytes) (impl : String) : Option (String × String) :=
+  let (filt, script) := match cutEq v with
+    | some (f, s) => (f, s)
+    | none => ([], v)
+  let items := splitOn COMMA (if filt.isEmpty then starB else filt)
+  let ents : Option (List (Bytes × Bytes × Bytes)) := (impl.splitOn ";").mapM fun e =>
+    match e.splitOn "/" with
+    | [a, n, sc] => match bytesOfHex? a, bytesOfHex? n, bytesOfHex? sc with
+      | some ab, some nb, some sb => some (ab, nb, sb)
+      | _, _, _ => none
+    | _ => none
+  match ents with
+  | none => some ("malformed", impl)
+  | some es =>
+    if es.length != items.length then
+      some ("parse-roundtrip", s!"{es.length} entries for {items.length} comma-separated filter items")
+    else if es.any (fun e => e.2.2 != script) then
+      some ("parse-roundtrip", "an entry's script is not the text after the first '='")
+    else
+      let bad := (es.zip items).find? fun (e, item) =>
+        let (ev, nm, _) := e
+        !(if nm.isEmpty then (item == ev || item == ev ++ [COLON]) else item == ev ++ COLON :: nm)
+      match bad with
+      | some (e, item) => some ("parse-roundtrip",
+          s!"filter item {hx item} parsed as event {hx e.1} name {hx e.2.1}: part of the item was lost")
+      | none => none
+
 def step (_ : Unit) (op : List String) (impl : String) : LineOut Unit :=
   match op with
   | ["parse", spec] =>
@@ -138,7 +170,7 @@ def step (_ : Unit) (op : List String) (impl : String) : LineOut Unit :=
     | none => { state := (), model := some "bad-op" }
     | some v =>
       let out := ";".intercalate ((parseEventScript v).map fun p => s!"{hx p.1.event}/{hx p.1.name}/{hx p.2}")
-      { state := (), model := some out }
+      { state := (), model := some out, monitor := parseMonitor v impl }
   | ["invoke", ev, name, e] =>
     match bytesOfHex? ev, bytesOfHex? name, parseEvent e 0 with
     | some evb, some nb, some event =>
